@@ -227,7 +227,13 @@ def run(model, R):
     R.guard('LABELLING', None, '_init call sites', no_unpickle_shortcut, model, R, 'LABELLING')
     # "extent = union of the object labels in the downset, intent = union of the property labels in the upset" is stated over
     # the traversals: their template (C09) is a dependency
-    from . import c09
+    from . import c09, c01
+    # labels are looked up through extension/intension of *this* context: its derivation closures and their wiring (C01)
+    R.guard('WIRING', None, '_pair_with closures', c01.closure_rules, model, R)
+    R.guard('WIRING', None, 'Relation.__new__', c01.relation_new, model, R)
     R.guard('TRAVERSAL', None, 'iterunion', c09.iterunion_template, model, R)
     R.guard('DIRECTION', None, 'call sites', c09.call_sites, model, R)
+    # a lattice loaded from an unordered serialisation is only the documented structure if the loaders forward raw (C06's rule)
+    from . import c06 as _c06
+    R.guard('ORDER', None, 'raw flag', _c06.raw_is_forwarded, model, R)
     return __doc__.strip()
